@@ -28,6 +28,25 @@ def sh(cmd, cwd=None, env=None, timeout=3600):
     return p.returncode, p.stdout
 
 
+def sh_group(cmd, cwd=None, env=None, timeout=900):
+    """run in its own session with output to a file (not a pipe): a demo that leaves worker processes behind
+    must neither block us (open pipe) nor survive (the whole group is killed afterwards)"""
+    import signal
+    import tempfile
+    with tempfile.TemporaryFile(mode="w+") as fh:
+        p = subprocess.Popen(cmd, cwd=cwd, env=env, stdout=fh, stderr=subprocess.STDOUT, text=True, start_new_session=True)
+        try:
+            rc = p.wait(timeout=timeout)
+        except subprocess.TimeoutExpired:
+            rc = 124
+        try:
+            os.killpg(p.pid, signal.SIGKILL)
+        except (ProcessLookupError, PermissionError):
+            pass
+        fh.seek(0)
+        return rc, fh.read()
+
+
 def main():
     prop, src, name = sys.argv[1], Path(sys.argv[2]), sys.argv[3]
     tier = "quick"
@@ -65,7 +84,20 @@ def main():
             failed = re.findall(r"^FAILED (\S+)", out, re.M)
             meta["tests"] = {"summary": tail, "passed": int(m.group(1)) if m else 0, "failed": failed,
                              "wall_s": round(time.time() - t0, 1)}
-            meta["tests_ok"] = bool(m) and int(m.group(1)) == 76 and all("test_restart_multiple_w" in f for f in failed)
+            # test_modify_velocity_distribition is a statistical test on an unseeded generator (3-sigma band): it
+            # fails now and then on the untouched tree too.  Re-run such extra failures alone, twice at most.
+            extra = [f for f in failed if "test_restart_multiple_w" not in f]
+            flaky = []
+            for f in extra:
+                for _ in range(2):
+                    rc2, out2 = sh(["/venv/bin/python", "-m", "pytest", "-q", "-p", "no:cacheprovider", "--timeout=900", f],
+                                   cwd=wt, env=env)
+                    if rc2 == 0:
+                        flaky.append(f)
+                        break
+            meta["tests"]["passed_on_rerun"] = flaky
+            npass = (int(m.group(1)) if m else 0) + len(flaky)
+            meta["tests_ok"] = npass == 76 and all(f in flaky for f in extra)
             meta["ran"].append("PYTHONPATH=<changed tree> /venv/bin/python -m pytest -q -p no:cacheprovider --timeout=900")
             print("tests:", tail)
         # demo on both trees (run from a temp cwd so that it cannot litter)
@@ -73,7 +105,7 @@ def main():
         for label, tree in (("clean", "/repo"), ("changed", str(wt))):
             d = Path(f"/var/tmp/seedcheck-{name}-demo-{label}")
             d.mkdir(exist_ok=True)
-            rc, out = sh(["/venv/bin/python", str(demo)], cwd=d, env=dict(os.environ, PYTHONPATH=tree), timeout=900)
+            rc, out = sh_group(["/venv/bin/python", str(demo)], cwd=d, env=dict(os.environ, PYTHONPATH=tree), timeout=600)
             meta[f"demo_{label}_rc"] = rc
             meta[f"demo_{label}_tail"] = out[-600:]
             shutil.rmtree(d, ignore_errors=True)
